@@ -14,10 +14,18 @@ from pyvc import models as M
 LEVEL = "other"
 TRUSTED = [
     "tuple comparison is lexicographic over all fields (T-STD); functools.total_ordering fills only missing operators",
+    "str.splitlines/strip uninterpreted (S3/S6); enum lookup NoteType(ch) by value; Fraction exact",
+    "contract of _extract_keysound_indices (clean row + index array) - checked by the bounded stand-in only",
     "pyvc VC generator; z3/cvc5",
 ]
-ASSUMPTIONS = []
-EXPLANATION = ""
+ASSUMPTIONS = ["well-formed rows: every row has the chart's width and only known note characters (instantiated per row / cell)",
+               "generator laziness not modelled"]
+EXPLANATION = ("Proved (SMT, all inputs): the four comparison operators of Note agree with (player, beat, column) order; "
+               "NoteData._iter_measure yields exactly one note per non-zero cell in (row, column) order with beat 4m + 4l/rows as an exact "
+               "fraction, column, type, player and keysound index of the cell (two nested loop invariants over prefix spec functions); the "
+               "arithmetic lemmas behind the strictly increasing order. Bounded stand-ins (never counted as proved): _extract_keysound_indices "
+               "against a declarative tokenizer, and the text-format lemma (split('&')/split(',')/strip/splitlines structure, column count, "
+               "str identity, strict order) on generated decorated texts.")
 
 
 def N():
@@ -73,12 +81,438 @@ def _defined(d):
     return d in n.Note.__dict__ and getattr(n.Note.__dict__[d], "__module__", "") == "simfile.notes"
 
 
-UNITS = [NoteCompare(op) for op in ("Lt", "LtE", "Gt", "GtE")]
+# ---------------------------------------------------------------------------
+# decoding: spec functions (prefix folds), from the statement
+
+S_ = z3.StringSort()
+ks_clean = z3.Function("ks_clean", S_, S_)                       # row text without [n] brackets
+ks_arr = z3.Function("ks_arr", S_, z3.ArraySort(z3.IntSort(), OINT.sort()))  # column -> bracketed index
+M.UF["ks_clean"] = (ks_clean, lambda r: N().NoteData._extract_keysound_indices(r))
+
+
+def note_sorts():
+    n = N()
+    return TNT(n.Note), TEnum(n.NoteType)
+
+
+def ntype_of(ch):
+    NT, NTy = note_sorts()
+    members = list(N().NoteType)
+    t = NTy.lift(members[-1])
+    for mbr in members[:-1][::-1]:
+        t = z3.If(ch == strval(mbr.value), NTy.lift(mbr), t)
+    return t
+
+
+def valid_cell(ch):
+    return z3.Or([ch == strval(mbr.value) for mbr in N().NoteType])
+
+
+_SF = {}
+
+
+def LF():
+    NT, _ = note_sorts()
+    if "LF" not in _SF:
+        I = z3.IntSort()
+        _SF["LF"] = z3.Function("row_notes_prefix", I, I, I, I, S_, S_, I, z3.SeqSort(NT.sort()))
+        _SF["MF"] = z3.Function("measure_notes_prefix", I, I, z3.SeqSort(S_), I, z3.SeqSort(NT.sort()))
+    return _SF["LF"]
+
+
+def MF():
+    LF()
+    return _SF["MF"]
+
+
+def cell(cl, c):
+    return z3.SubString(cl, c, 1)
+
+
+def spec_beat(m, l, sub):
+    """4 x measure index + 4 x row index / rows in that measure, as an exact fraction (stated without division)"""
+    return z3.ToReal(4 * m) + z3.ToReal(4 * l) / z3.ToReal(sub)
+
+
+def cell_notes(p, m, sub, l, cl, raw, c):
+    NT, _ = note_sorts()
+    note = NT.mk(spec_beat(m, l, sub), c, ntype_of(cell(cl, c)), p, z3.Select(ks_arr(raw), c))
+    return z3.If(cell(cl, c) != strval("0"), z3.Unit(note), z3.Empty(z3.SeqSort(NT.sort())))
+
+
+def LF_unfold(p, m, sub, l, cl, raw, c):
+    NT, _ = note_sorts()
+    f = LF()
+    return [f(p, m, sub, l, cl, raw, z3.IntVal(0)) == z3.Empty(z3.SeqSort(NT.sort())),
+            z3.Implies(z3.And(c >= 0, c < z3.Length(cl)),
+                       f(p, m, sub, l, cl, raw, c + 1) == z3.Concat(f(p, m, sub, l, cl, raw, c), cell_notes(p, m, sub, l, cl, raw, c)))]
+
+
+def MF_unfold(p, m, lines, l):
+    NT, _ = note_sorts()
+    f, g = MF(), LF()
+    sub = z3.Length(lines)
+    raw = M.str_strip(lines[l])
+    cl = ks_clean(raw)
+    return [f(p, m, lines, z3.IntVal(0)) == z3.Empty(z3.SeqSort(NT.sort())),
+            z3.Implies(z3.And(l >= 0, l < sub),
+                       f(p, m, lines, l + 1) == z3.Concat(f(p, m, lines, l), g(p, m, sub, l, cl, raw, z3.Length(cl))))]
+
+
+def extract_contract(ex, args, kwargs):
+    """callee contract of NoteData._extract_keysound_indices (bounded stand-in below, never counted as proved)"""
+    line = args[0]
+    ksl = args[1] if len(args) > 1 else kwargs.get("keysound_indices")
+    ex.assumptions_used.add("contract of _extract_keysound_indices: returns ks_clean(row) and records ks_arr(row) (bounded stand-in)")
+    lt = term(line, STR)
+    if ksl is not None:
+        ex.setfield(ksl, "arr", ks_arr(lt))
+    return SV(ks_clean(lt), STR)
+
+
+class IterMeasure(Unit):
+    name = "NoteData._iter_measure"
+    functions = ("simfile.notes.NoteData._iter_measure", "simfile.timing.Beat.__new__")
+    expected = ["_iter_measure#loop0:inv-keep:yielded", "_iter_measure#loop1:inv-keep:yielded", "post:one-note-per-nonzero-cell"]
+    Q = "simfile.notes.NoteData._iter_measure"
+
+    def run(self, ex):
+        n = N()
+        NT, NTy = note_sorts()
+        nd = HObj(n.NoteData, {}, "self")
+        cols = ex.sym(INT, "columns")
+        ex.assume(cols.t >= 1)
+        nd.fields["_columns"] = cols
+        p, m = ex.sym(INT, "p"), ex.sym(INT, "m")
+        ex.assume(z3.And(p.t >= 0, m.t >= 0))
+        measure = ex.sym(STR, "measure")
+        lines = M.str_splitlines(measure.t)
+        sub = z3.Length(lines)
+        ex.callee_contracts["simfile.notes.NoteData._extract_keysound_indices"] = extract_contract
+
+        def row(l):
+            raw = M.str_strip(lines[l])
+            return raw, ks_clean(raw)
+
+        def wellformed_row(l):
+            raw, cl = row(l)
+            return z3.Length(cl) == cols.t
+
+        def outer_inv(ex_, fr, l, vals):
+            return [("yielded", vals["yielded"].t == MF()(p.t, m.t, lines, l))]
+
+        def outer_using(ex_, fr, l, vals):
+            return MF_unfold(p.t, m.t, lines, l) + [z3.Implies(z3.And(l >= 0, l < sub), wellformed_row(l))]
+
+        def inner_inv(ex_, fr, c, vals):
+            l = term(fr.locals["l"], INT)
+            raw, cl = row(l)
+            y0 = fr.loop_entry[(self.Q, 1)]["yielded"].t
+            return [("yielded", vals["yielded"].t == z3.Concat(y0, LF()(p.t, m.t, sub, l, cl, raw, c)))]
+
+        def inner_using(ex_, fr, c, vals):
+            l = term(fr.locals["l"], INT)
+            raw, cl = row(l)
+            wf_cell = z3.Implies(z3.And(c >= 0, c < z3.Length(cl)), z3.Or(cell(cl, c) == strval("0"), valid_cell(cell(cl, c))))
+            return LF_unfold(p.t, m.t, sub, l, cl, raw, c) + [wf_cell]
+
+        ex.loop_specs[(self.Q, 0)] = LoopSpec([yield_slot(NT)], outer_inv, outer_using)
+        ex.loop_specs[(self.Q, 1)] = LoopSpec([yield_slot(NT)], inner_inv, inner_using)
+        fn = ex.closure_of(self.Q, owner=n.NoteData)
+        kind, r = ex.run_function(fn, [nd, p, m, measure])
+        if kind == "raise":
+            ex.prove("post:noraise", False, f"raised {r!r} on well-formed rows")
+            return
+        out = seq_of_items(ex, r.items, TSeq(NT))
+        ex.prove_eq("post:one-note-per-nonzero-cell", out.t, MF()(p.t, m.t, lines, sub),
+                 "exactly one note per non-zero cell, in (row, column) order, with the beat, column, type, player and keysound index of the cell")
+
+
+def MEAS(p, m, measure):
+    """notes of one (already stripped) measure = the proved postcondition of _iter_measure"""
+    lines = M.str_splitlines(measure)
+    return MF()(p, m, lines, z3.Length(lines))
+
+
+def IFn():
+    NT, _ = note_sorts()
+    if "IF" not in _SF:
+        I = z3.IntSort()
+        _SF["IF"] = z3.Function("section_notes_prefix", I, z3.SeqSort(S_), I, z3.SeqSort(NT.sort()))
+        _SF["OF"] = z3.Function("chart_notes_prefix", z3.SeqSort(S_), I, z3.SeqSort(NT.sort()))
+    return _SF["IF"]
+
+
+def OFn():
+    IFn()
+    return _SF["OF"]
+
+
+class NoteDataIter(Unit):
+    name = "NoteData.__iter__"
+    functions = ("simfile.notes.NoteData.__iter__",)
+    expected = ["__iter__#loop0:inv-keep:yielded", "__iter__#loop1:inv-keep:yielded", "post:sections-measures-in-order"]
+    Q = "simfile.notes.NoteData.__iter__"
+
+    def run(self, ex):
+        n = N()
+        NT, _ = note_sorts()
+        text = ex.sym(STR, "notedata")
+        nd = HObj(n.NoteData, {"_notedata": text, "_columns": ex.sym(INT, "columns")}, "self")
+        secs = M.str_split(text.t, strval("&"))
+        empty = z3.Empty(z3.SeqSort(NT.sort()))
+
+        def im_contract(ex_, args, kwargs):
+            ex_.assumptions_used.add("callee contract _iter_measure: yields MEAS(p, m, measure) (proved in unit NoteData._iter_measure)")
+            _, p_, m_, meas = args
+            return SV(MEAS(term(p_, INT), term(m_, INT), term(meas, STR)), TSeq(NT))
+
+        ex.callee_contracts["simfile.notes.NoteData._iter_measure"] = im_contract
+
+        def outer_inv(ex_, fr, p_, vals):
+            return [("yielded", vals["yielded"].t == OFn()(secs, p_))]
+
+        def outer_using(ex_, fr, p_, vals):
+            ms = M.str_split(secs[p_], strval(","))
+            return [OFn()(secs, z3.IntVal(0)) == empty,
+                    z3.Implies(z3.And(p_ >= 0, p_ < z3.Length(secs)),
+                               OFn()(secs, p_ + 1) == z3.Concat(OFn()(secs, p_), IFn()(p_, ms, z3.Length(ms))))]
+
+        def inner_inv(ex_, fr, k, vals):
+            p_ = term(fr.locals["p"], INT)
+            ms = M.str_split(secs[p_], strval(","))
+            y0 = fr.loop_entry[(self.Q, 1)]["yielded"].t
+            return [("yielded", vals["yielded"].t == z3.Concat(y0, IFn()(p_, ms, k)))]
+
+        def inner_using(ex_, fr, k, vals):
+            p_ = term(fr.locals["p"], INT)
+            ms = M.str_split(secs[p_], strval(","))
+            return [IFn()(p_, ms, z3.IntVal(0)) == empty,
+                    z3.Implies(z3.And(k >= 0, k < z3.Length(ms)),
+                               IFn()(p_, ms, k + 1) == z3.Concat(IFn()(p_, ms, k), MEAS(p_, k, M.str_strip(ms[k]))))]
+
+        ex.loop_specs[(self.Q, 0)] = LoopSpec([yield_slot(NT)], outer_inv, outer_using)
+        ex.loop_specs[(self.Q, 1)] = LoopSpec([yield_slot(NT)], inner_inv, inner_using)
+        fn = ex.closure_of(self.Q, owner=n.NoteData)
+        kind, r = ex.run_function(fn, [nd])
+        if kind == "raise":
+            ex.prove("post:noraise", False, f"raised {r!r}")
+            return
+        out = seq_of_items(ex, r.items, TSeq(NT))
+        ex.prove_eq("post:sections-measures-in-order", out.t, OFn()(secs, z3.Length(secs)),
+                    "players in '&' order, measures in ',' order, each measure stripped and decoded with its own indices")
+
+
+class NoteDataStr(Unit):
+    name = "NoteData.__init__/__str__"
+    functions = ("simfile.notes.NoteData.__init__", "simfile.notes.NoteData.__str__", "simfile.notes.NoteData.columns")
+    expected = ["post:str-is-the-text", "post:columns-from-_get_columns"]
+
+    def run(self, ex):
+        n = N()
+        text = ex.sym(STR, "text")
+        cols = ex.sym(INT, "cols")
+
+        def gc(ex_, args, kwargs):
+            ex_.ghost["gc_arg"] = args[-1]
+            return cols
+
+        ex.callee_contracts["simfile.notes.NoteData._get_columns"] = gc
+        nd = HObj(n.NoteData, {}, "self")
+        kind, r = ex.run_function(ex.closure_of("simfile.notes.NoteData.__init__", owner=n.NoteData), [nd, text])
+        if kind == "raise":
+            ex.prove("post:noraise", False, f"raised {r!r}")
+            return
+        s_ = ex.models.to_str(ex, nd)
+        ex.prove("post:str-is-the-text", term(s_, STR) == text.t, "the string form of the note data is the original text unchanged")
+        ex.prove("post:columns-from-_get_columns", z3.And(term(ex.getattr(nd, "columns"), INT) == cols.t, term(ex.ghost["gc_arg"], STR) == text.t))
+
+
+class OrderLemma(Unit):
+    """Layer 2 (arithmetic facts behind the strictly increasing order)."""
+    name = "lemma:ORDER"
+    functions = ()
+    expected = ["lemma:row-beats-increase", "lemma:measure-bounds", "lemma:next-measure-later"]
+
+    def run(self, ex):
+        m, l, sub, sub2 = (ex.sym(INT, x).t for x in ("m", "l", "rows", "rows2"))
+        ex.assume(z3.And(m >= 0, sub >= 1, sub2 >= 1, l >= 0, l < sub))
+        b = spec_beat(m, l, sub)
+        ex.prove("lemma:measure-bounds", z3.And(b >= z3.ToReal(4 * m), b < z3.ToReal(4 * m + 4)),
+                 "every row of measure m lies in [4m, 4m+4)")
+        ex.prove("lemma:row-beats-increase", z3.Implies(l + 1 < sub, b < spec_beat(m, l + 1, sub)))
+        ex.prove("lemma:next-measure-later", b < spec_beat(m + 1, z3.IntVal(0), sub2))
+
+
+UNITS = [NoteCompare(op) for op in ("Lt", "LtE", "Gt", "GtE")] + [IterMeasure(), NoteDataIter(), NoteDataStr(), OrderLemma()]
+
+
+# ---------------------------------------------------------------------------
+# the statement as an executable oracle (used by the bounded stand-ins and the witness search)
+
+def oracle_row(row):
+    """tokenize a row: [(cell char, keysound index or None)]"""
+    cells = []
+    i = 0
+    while i < len(row):
+        ch = row[i]
+        i += 1
+        ks = None
+        if i < len(row) and row[i] == "[":
+            j = row.index("]", i)
+            ks = int(row[i + 1:j])
+            i = j + 1
+        cells.append((ch, ks))
+    return cells
+
+
+def oracle_decode(text):
+    n = N()
+    from simfile.timing import Beat
+    out = []
+    for p, section in enumerate(text.split("&")):
+        for m, measure in enumerate(section.split(",")):
+            rows = [r.strip() for r in measure.strip().splitlines()]
+            for l, row in enumerate(rows):
+                for c, (ch, ks) in enumerate(oracle_row(row)):
+                    if ch != "0":
+                        out.append(n.Note(Beat(4 * m * len(rows) + 4 * l, len(rows)), c, n.NoteType(ch), p, ks))
+    return out
+
+
+def gen_texts(tier, seed):
+    """well-formed note data texts with decoration (blanks, blank lines, CRLF, brackets)"""
+    import itertools, random
+    rnd = random.Random(seed)
+    cells = ["0", "1", "2", "3", "M", "1[0]", "4[12]", "K[345]", "L", "F", "A"]
+    total = 1500 if tier == "quick" else 40000
+    for k in range(total):
+        cols = rnd.randint(1, 4 if tier == "quick" else 8)
+        players = rnd.choice([1, 1, 1, 2, 3])
+        nl = rnd.choice(["\n", "\r\n"])
+        deco = rnd.random() < 0.5
+        secs = []
+        for _ in range(players):
+            ms = []
+            for _ in range(rnd.randint(1, 3)):
+                rows = rnd.choice([1, 2, 3, 4, 5, 8, 12])
+                rs = []
+                for _ in range(rows):
+                    r = "".join(rnd.choice(cells) if rnd.random() < 0.35 else "0" for _ in range(cols))
+                    if deco:
+                        r = " " * rnd.randint(0, 2) + r + " " * rnd.randint(0, 2)
+                    rs.append(r)
+                body = nl.join(rs)
+                if deco:
+                    body = nl * rnd.randint(0, 2) + body + nl * rnd.randint(0, 2)
+                else:
+                    body = nl + body + nl if rnd.random() < 0.5 else body
+                ms.append(body)
+            secs.append(",".join(ms))
+        # the statement: player sections are separated by '&' on its own line
+        yield (nl + "&" + nl).join(secs), cols
+
+
+def check_text(text, cols):
+    import operator
+    n = N()
+    try:
+        nd = n.NoteData(text)
+        got = list(nd)
+    except Exception as e:
+        return f"decoding raised {type(e).__name__}: {e}"
+    exp = oracle_decode(text)
+    if got != exp:
+        k = next((i for i, (a, b) in enumerate(zip(got, exp)) if a != b), min(len(got), len(exp)))
+        return f"note {k}: got {got[k] if k < len(got) else None!r}, statement prescribes {exp[k] if k < len(exp) else None!r} ({len(got)} vs {len(exp)} notes)"
+    if nd.columns != cols:
+        return f"columns = {nd.columns}, row width is {cols}"
+    if str(nd) != text:
+        return "str(NoteData(text)) differs from the text"
+    for a, b in zip(got, got[1:]):
+        if not (a < b and a <= b and b > a and b >= a and (a.player, a.beat, a.column) < (b.player, b.beat, b.column)):
+            return f"order: {a!r} then {b!r}"
+    return None
+
+
+class TextFormat(Bounded):
+    name = "text-format-lemma"
+    function = "simfile.notes.NoteData.__init__/_get_columns/__iter__/__str__ (split/strip/splitlines structure)"
+
+    def bound(self, tier):
+        return ("1500 generated well-formed texts: <=4 columns, <=3 players, <=3 measures, rows in {1,2,3,4,5,8,12}, LF/CRLF, blank decoration, brackets" if tier == "quick"
+                else "40000 generated well-formed texts: <=8 columns, <=3 players, <=3 measures, rows in {1,2,3,4,5,8,12}, LF/CRLF, blank decoration, brackets; plus every chart of the corpus")
+
+    def run(self, tier, seed):
+        import time, glob
+        t0 = time.time()
+        cases, failures = 0, []
+        for text, cols in gen_texts(tier, seed):
+            cases += 1
+            bad = check_text(text, cols)
+            if bad:
+                failures.append(dict(input=text, detail=bad))
+                if len(failures) >= 3:
+                    break
+        if tier == "thorough" and not failures:
+            import simfile
+            n = N()
+            for path in sorted(glob.glob("/repo/testdata/**/*.s*", recursive=True)):
+                try:
+                    sf = simfile.open(path)
+                except Exception:
+                    continue
+                for ch in sf.charts:
+                    cases += 1
+                    got = list(n.NoteData(ch))
+                    if got != oracle_decode(ch.notes):
+                        failures.append(dict(input=f"{path}:{ch.stepstype}/{ch.difficulty}", detail="corpus chart decodes differently from the statement"))
+        return dict(cases=cases, failures=failures, seconds=time.time() - t0)
+
+
+class ExtractKeysounds(Bounded):
+    name = "_extract_keysound_indices"
+    function = "simfile.notes.NoteData._extract_keysound_indices"
+
+    def bound(self, tier):
+        k = 4 if tier == "quick" else 6
+        return f"all rows of <= {k} cells over cell kinds {{0,1,M}} x bracket {{none,[0],[12],[345]}} on non-zero cells, against the declarative tokenizer (clean row, index per column, untouched cells stay None)"
+
+    def run(self, tier, seed):
+        import itertools, time
+        n = N()
+        t0 = time.time()
+        kinds = ["0", "1", "M", "1[0]", "M[12]", "1[345]"]
+        cases, failures = 0, []
+        for ln in range(0, (4 if tier == "quick" else 6) + 1):
+            for combo in itertools.product(kinds, repeat=ln):
+                row = "".join(combo)
+                cases += 1
+                toks = oracle_row(row)
+                ks = [None] * len(toks)
+                try:
+                    clean = n.NoteData._extract_keysound_indices(row, ks)
+                    clean2 = n.NoteData._extract_keysound_indices(row)
+                except Exception as e:
+                    failures.append(dict(input=row, detail=f"raised {type(e).__name__}: {e}"))
+                    continue
+                if clean != "".join(t[0] for t in toks) or clean2 != clean or ks != [t[1] for t in toks]:
+                    failures.append(dict(input=row, detail=f"clean={clean!r} indices={ks!r}, tokenizer says {toks!r}"))
+                if len(failures) >= 3:
+                    break
+        return dict(cases=cases, failures=failures, seconds=time.time() - t0)
+
+
+BOUNDED = [ExtractKeysounds(), TextFormat()]
 
 
 def witness_search(tier, seed):
     import itertools, operator
     n = N()
+    for text, cols in gen_texts("quick", seed):
+        bad = check_text(text, cols)
+        if bad:
+            return dict(input=dict(text=text), detail=bad)
     from simfile.timing import Beat
     notes = [n.Note(Beat(b), c, t, p, k) for p in (0, 1) for b in (0, 1) for c in (0, 1) for t in (n.NoteType.TAP, n.NoteType.MINE) for k in (None, 3)]
     for a, b in itertools.product(notes, repeat=2):
